@@ -60,8 +60,8 @@ Fixpoint tagmap_of (T: ty) : tmap :=
   | TChoice alts =>
       combine_maps true ((fix go (l: list ty) : list (tmap * ty) :=
                             match l with [] => [] | a :: r => (tagmap_of a, a) :: go r end) alts) empty_tmap
-  | _ => if is_any T then mkTmap [(tagset_of' T, T)] [eoo_tagset] (Some T) false
-         else mkTmap [(tagset_of' T, T)] [] None false
+  | TAny => mkTmap [([], T)] [eoo_tagset] (Some T) false     (* only the untagged ANY is a catch-all *)
+  | _ => mkTmap [(tagset_of' T, T)] [] None false
   end.
 
 Definition fields_tagmap (unique: bool) (fs: list ty) : tmap :=
